@@ -129,11 +129,12 @@ PROPS = {
         bounded=[CB('comm-contracts', 'contracts/comm.py', 'gens_comm', budget=120)],
     ),
     'C06': dict(
-        contract_files=['contracts/describe.py'],
-        level='bounded',
-        trusted_base=COMMON_TRUSTED,
-        uncovered=['datainfo accepts / rejects exactly what the node does (that is C03 + C01 on the same datatype object), interface classes'
-                   ' and features, main-unit substitution: not covered here; description assembly has no deductive contract (strings, generated classes)'],
+        contract_files=['contracts/events.py', 'contracts/describe.py'],
+        level='proof',
+        trusted_base=COMMON_TRUSTED + ['SecNode.get_module / make_update contracts; exported names are modules (node bookkeeping)'],
+        uncovered=['description assembly (exactly the exported accessibles, strict JSON, stable), readonly / constant flags: bounded stand-in;'
+                   ' datainfo accepts / rejects exactly what the node does is C03 + C01 on the same datatype object; interface classes, features,'
+                   ' main-unit substitution: not covered; read / change / do of undescribed accessibles: proved under C04'],
         bounded=[CB('describe-contracts', 'contracts/describe.py', 'gens_describe')],
     ),
     'C13': dict(
